@@ -548,6 +548,102 @@ theorem ed_session_satisfies_spec_absent (pol : Policy) (ex : List CStr) (cmds :
   simp only [↓reduceIte, List.foldl_cons]
   rw [fold_session_absent ex cmds {} _ rfl rfl]; rfl
 
+/-! ### the compiler: load_object, #include, inherit (no master consultation; the oracle demands confinement) -/
+
+/-- all events are libc calls on safe paths -/
+def allSafeFs (evs : List Ev) : Prop := ∀ e ∈ evs, ∃ fn w p, e = Ev.fs fn w p ∧ safe p = true
+
+theorem fold_compile (f : String) (hf : compileCalls.contains f = true) : ∀ (evs : List Ev) (s : JState),
+    s.efun = f → allSafeFs evs → evs.foldl judgeStep s = s := by
+  intro evs
+  induction evs with
+  | nil => intros; rfl
+  | cons e rest ih =>
+    intro s he h
+    obtain ⟨fn, w, p, rfl, hs⟩ := h e (by simp)
+    have hna : absolute p = false := by
+      simp [safe] at hs; simpa [absolute] using hs.1
+    have hf' : f ∈ compileCalls := by simpa using hf
+    have hstep : judgeStep s (.fs fn w p) = s := by
+      simp [judgeStep, hna, hs, he, hf']
+    rw [List.foldl_cons, hstep]
+    exact ih s he (fun e' he' => h e' (by simp [he']))
+
+theorem judge_compile (f : String) (args : List CStr) (evs : List Ev) (hf : compileCalls.contains f = true)
+    (h : allSafeFs evs) : judgeEv (.call f "-" args :: evs) = [] := by
+  unfold judgeEv
+  rw [List.foldl_cons, fold_compile f hf evs _ rfl h]; rfl
+
+theorem allSafeFs_append {a b : List Ev} (ha : allSafeFs a) (hb : allSafeFs b) : allSafeFs (a ++ b) := by
+  intro e he
+  rcases List.mem_append.mp he with h | h
+  · exact ha e h
+  · exact hb e h
+
+theorem loadEvents_safe (ex : List CStr) (name : CStr) : allSafeFs (loadEvents ex name).1 := by
+  unfold loadEvents
+  cases h : loadAccess name (fun p => (lookup ex p).isSome) with
+  | none => intro e he; simp at he
+  | some a =>
+    simp only
+    apply allSafeFs_append
+    · cases hp : a.probe with
+      | none => intro e he; simp at he
+      | some p =>
+        intro e he
+        simp only [List.mem_singleton] at he
+        exact ⟨_, _, _, he, load_probe_confined name _ a p h (Or.inl hp)⟩
+    · cases hp : a.opened with
+      | none => intro e he; simp at he
+      | some p =>
+        intro e he
+        simp only [List.mem_singleton] at he
+        exact ⟨_, _, _, he, load_probe_confined name _ a p h (Or.inr hp)⟩
+
+theorem includeOpens_go_safe (ex : List CStr) : ∀ ts : List CStr, (∀ t ∈ ts, safe t = true) →
+    allSafeFs (includeOpens.go ex ts) := by
+  intro ts
+  induction ts with
+  | nil => intro _ e he; simp [includeOpens.go] at he
+  | cons t rest ih =>
+    intro h e he
+    simp only [includeOpens.go, List.mem_cons] at he
+    rcases he with rfl | he
+    · exact ⟨_, _, _, rfl, h t (by simp)⟩
+    · split at he
+      · simp at he
+      · exact ih (fun t' ht' => h t' (by simp [ht'])) e he
+
+/-- **model_satisfies_spec, compiler part**: whatever object name is loaded, whatever `#include` / `inherit`
+    name a source file contains, every path the loader model stats or opens is relative and free of "..". -/
+theorem load_model_satisfies_spec (ex : List CStr) (name : CStr) :
+    judgeEv (.call "load" "-" [name] :: (loadEvents ex name).1) = [] :=
+  judge_compile "load" _ _ (by decide) (loadEvents_safe ex name)
+
+theorem include_model_satisfies_spec (base name : CStr) :
+    judgeEv (.call "include" "-" [base, name] :: includeEvents base name) = [] := by
+  apply judge_compile "include" _ _ (by decide)
+  unfold includeEvents
+  simp only
+  apply allSafeFs_append (loadEvents_safe _ _)
+  split
+  · unfold includeOpens
+    apply includeOpens_go_safe
+    intro t ht
+    exact include_path_confined_config [str "/include", str "/"] base name t ht
+  · intro e he; simp at he
+
+theorem inherit_model_satisfies_spec (base name : CStr) :
+    judgeEv (.call "inherit" "-" [base, name] :: inheritEvents base name) = [] := by
+  apply judge_compile "inherit" _ _ (by decide)
+  unfold inheritEvents
+  split
+  · exact loadEvents_safe _ _
+  · apply allSafeFs_append (allSafeFs_append (loadEvents_safe _ _) (loadEvents_safe _ _))
+    split
+    · exact loadEvents_safe _ _
+    · intro e he; simp at he
+
 /-- non-vacuity: a session that writes, and the oracle's objection to a write nobody approved as a write -/
 example : edSession .readOnly [] {} [.start (str "/d/f.txt"), .a (str "x"), .w [], .Q] =
     [.call "ed" whoObj [str "ed", str "/d/f.txt"], .valid false (str "/d/f.txt") whoObj "ed_start" .ok,
